@@ -197,6 +197,8 @@ func (t *taintEngine) visit(v ssa.Value, r ssa.Instruction) {
 			switch b.Name() {
 			case "append":
 				if cv, ok := x.(ssa.Value); ok {
+					// a list of plain strings being assembled (the pieces of a rendered node, joined afterwards) only
+					// carries the text on; a list of interface values is a Borno array: text stored in it is a value
 					t.sink(x, "append", "appended to "+describe(common.Args[0])+" : "+typeStr(cv.Type()))
 				}
 			default:
@@ -298,7 +300,7 @@ func checkC18(p *Prog, l *Ledger) {
 					ok, why = true, "formatted into text"
 				}
 			case "compare":
-				ok = fk == "parser.(*Parser).varDeclaration"
+				ok = p.OwnedBy(s.Fn, "parser.(*Parser).varDeclaration")
 				why = "the documented same-line rule of `ধরি` declarations"
 				if fk == "lexer.(*Scanner).AddToken" || strings.HasPrefix(fk, "token.") {
 					ok = false
@@ -365,16 +367,37 @@ func checkC18(p *Prog, l *Ledger) {
 		}
 		te.run()
 		byKey := map[string]bool{}
+		// a function that only String() methods call (transitively) is part of the rendering of a node as text
+		var renderer func(fn *ssa.Function, depth int) bool
+		renderer = func(fn *ssa.Function, depth int) bool {
+			if fn.Name() == "String" || fn.Name() == "Error" {
+				return true
+			}
+			css := p.CallSites(fn)
+			if depth > 3 || len(css) == 0 {
+				return false
+			}
+			for _, cs := range css {
+				if !renderer(cs.Parent(), depth+1) {
+					return false
+				}
+			}
+			return true
+		}
 		for _, s := range te.sinks {
 			fk := p.FuncKey(s.Fn)
 			key := fk + "#" + s.Kind
 			ok, why := false, ""
+			if (s.Kind == "append" || s.Kind == "extcall" || s.Kind == "return") && renderer(s.Fn, 0) {
+				ok, why = true, "part of a String() rendering (a helper only String() methods call)"
+			}
 			switch s.Kind {
 			case "map-key":
 				ok = strings.Contains(s.Desc, "map[string]")
 				why = "used as a key compared by equality only (" + s.Desc + ")"
 			case "extcall":
 				switch {
+				case ok:
 				case strings.HasPrefix(s.Desc, "fmt."):
 					ok, why = true, "formatted into a diagnostic or String() text"
 				case strings.Contains(s.Desc, "norm."):
@@ -383,8 +406,10 @@ func checkC18(p *Prog, l *Ledger) {
 			case "stringer":
 				ok, why = true, "String() rendering"
 			case "append":
-				ok = strings.HasSuffix(s.Desc, ": []string") && fk == "parser.(*Parser).objectLiteral"
-				why = "recorded in the literal's name list (property names are data: the documented second class)"
+				if !ok {
+					ok = strings.HasSuffix(s.Desc, ": []string") && fk == "parser.(*Parser).objectLiteral"
+					why = "recorded in the literal's name list (property names are data: the documented second class)"
+				}
 			case "field-store":
 				ok = false
 			}
